@@ -186,12 +186,26 @@ def r_ordered(prog, tier):
         why = 'sibling lookup has a shape this rule does not recognise'
         uses_ordered = any(isinstance(n, ast.Call) and prog.callee(n, f) == ('trees', 'children')
                            and unparse(n.args[0]) == '%s.parent' % f.params[0] for n in walk_own(f.node))
-        uses_raw = any(isinstance(n, ast.Attribute) and n.attr == 'children' and unparse(n.value) == '%s.parent' % f.params[0]
-                       for n in walk_own(f.node))
+        parents_ = {}
+        for n in ast.walk(f.node):
+            for c in ast.iter_child_nodes(n):
+                parents_[c] = n
+        raws = [n for n in walk_own(f.node) if isinstance(n, ast.Attribute) and n.attr == 'children'
+                and unparse(n.value) == '%s.parent' % f.params[0]]
+        sorted_raw = [n for n in raws if isinstance(parents_.get(n), ast.Call) and _is_leftmost_sorted(prog, f, parents_[n])]
+        harmless = [n for n in raws if n not in sorted_raw and _raw_context(n, parents_.get(n), parents_) not in (None,)
+                    and _raw_context(n, parents_.get(n), parents_)[0] is True]
+        uses_raw = [n for n in raws if n not in sorted_raw and n not in harmless]
+        helper = [n for n in walk_own(f.node) if isinstance(n, ast.Call) and prog.callee(n, f) is not None
+                  and prog.callee(n, f) != ('trees', 'children') and n.args and f.params[0] in unparse(n.args[0])]
         if uses_raw:
             ok, why = False, 'looks the node up in the stored child list of the parent'
         elif uses_ordered:
             ok, why = True, 'uses children(%s.parent)' % f.params[0]
+        elif sorted_raw:
+            ok, why = True, 'sorts the stored children of the parent by leftmost token itself'
+        elif helper:
+            ok, why = None, 'the sibling list comes from `%s`, which this rule does not follow' % unparse(helper[0].func)
         obs.append(Ob('R-ORDERED/DEF', f.fq, '%s() looks the node up in the ordered children of its parent' % nm,
                       ok, why, construct='def-' + nm, line=f.node.lineno))
     # ---- (b) raw uses of .children
@@ -592,10 +606,13 @@ def r_nav(prog, tier):
                     why = 'returns %s[%s%+d] for the element found at slice offset %d: neighbour offset %+d' \
                           % (lst, iv, k, start, off)
         lstdef_ok = any(isinstance(n, ast.Assign) and isinstance(n.value, ast.Call)
-                        and prog.callee(n.value, f) == ('trees', 'children')
-                        and unparse(n.value.args[0]) == '%s.parent' % t for n in walk_own(f.node))
+                        and ((prog.callee(n.value, f) == ('trees', 'children')
+                              and unparse(n.value.args[0]) == '%s.parent' % t)
+                             or (_is_leftmost_sorted(prog, f, n.value) and unparse(n.value.args[0]) == '%s.parent.children' % t))
+                        for n in walk_own(f.node))
         obs.append(Ob('R-NAV', f.fq, '%s returns the neighbour at offset %+d in the ordered children of the parent'
-                      % (nm, want), (ok and lstdef_ok) if ok is not None else None, why, construct='nav:' + nm,
+                      % (nm, want), (True if (ok and lstdef_ok) else (False if ok is False else None)) if ok is not None else None,
+                      why, construct='nav:' + nm,
                       line=f.node.lineno))
         rootn = [n for n in cfg.eval_nodes() if n.kind == 'stmt' and isinstance(n.ast, ast.Return)
                  and isinstance(n.ast.value, ast.Constant) and n.ast.value.value is None]
